@@ -3,6 +3,8 @@ package props
 import (
 	"bytes"
 	"fmt"
+	"os"
+	"path/filepath"
 	"sort"
 	"strings"
 	"testing"
@@ -160,12 +162,31 @@ func c15Faulted(c c15Case, w *World, d *core.Dir) *core.Failure {
 func TestC15(t *testing.T) {
 	r := core.Start(t, "C15")
 	defer r.Finish()
-	r.Rule = "fault enumeration through filesystem.Filesystem wrappers that count WriteFile calls (an in-memory one with a logical clock, and for one plan in ten a wrapper in front of gopki's own NativeFs in a temp directory, where a torn write is the real WriteFile called with a prefix): hierarchies of up to 5 entities / 3 tiers, a third of them with unrelated key files (<stem>.key, <stem>.key.pem) next to the configurations; history = optional populating run, 0-2 edits (subject of an entity at any tier, extension list, profile, deleted artifact) and a faulted run with default flags, generate-all or -m -c -o; a fault-free dry run of that last run records its N writes and their contents, then for EVERY write index k < N and EVERY outcome in {error returned without writing; torn write (prefix, then process death) and torn write with error returned, cut at every PEM block boundary (before BEGIN, before END, END without newline, after the block), inside and right after the hash line, at 0 bytes and at three rapid-drawn interior offsets; complete write then death} the faulted run is replayed on a copy, followed by a default-flag run on a fresh database object. Oracle: an injected error makes the run fail; the recovery run succeeds; every entity then has certificate and key material, all chains verify as in C01, certificates equal a from-scratch run modulo keys/serials, and a further run is a no-op. Thorough also injects a second fault into the recovery run. Non-trivial = fault at a write that is not the last one of the run, or on the artifact of an entity that signs others; distinct by (history, k, outcome, cut)."
+	r.Rule = "fault enumeration through filesystem.Filesystem wrappers that count WriteFile calls (an in-memory one with a logical clock, and for one plan in ten a wrapper in front of gopki's own NativeFs in a temp directory, where a torn write is the real WriteFile called with a prefix): hierarchies of up to 5 entities / 3 tiers, a third of them with unrelated key files (<stem>.key, <stem>.key.pem) next to the configurations; history = optional populating run, 0-2 edits (subject of an entity at any tier, extension list, profile, deleted artifact) and a faulted run with default flags, generate-all or -m -c -o; a fault-free dry run of that last run records its N writes and their contents, then for EVERY write index k < N and EVERY outcome in {error returned without writing; torn write (prefix, then process death) and torn write with error returned, cut at every PEM block boundary (before BEGIN, before END, END without newline, after the block), inside and right after the hash line, at 0 bytes and at three rapid-drawn interior offsets; complete write then death} the faulted run is replayed on a copy, followed by a default-flag run on a fresh database object. Oracle: an injected error makes the run fail; the recovery run succeeds; every entity then has certificate and key material, all chains verify as in C01, certificates equal a from-scratch run modulo keys/serials, and a further run is a no-op. Thorough also injects a second fault into the recovery run. Command line: on a native directory one artifact cannot be written for real (a directory in its place, or a symbolic link into a directory that does not exist; each tier; fresh and populated): the command must not exit 0, and once the obstacle is gone the next default run repairs everything. Non-trivial = fault at a write that is not the last one of the run, or on the artifact of an entity that signs others; distinct by (history, k, outcome, cut)."
 	r.Assumptions = []string{"a crash is modelled as a prefix of the intended file content at the WriteFile API (what truncate-then-write produces); storage-level reordering is out of reach", "single process death per run; database objects are never reused after a fault"}
 	wrap := func(c c15Case) *core.Failure { return checkC15(c) }
 	core.Register(r, "fault", wrap)
+	cliFault := func(c c15CLI) *core.Failure {
+		r.Case(fmt.Sprintf("cli %+v", c), "cli:real-write-failure:"+c.Obstacle)
+		return checkC15CLI(c)
+	}
+	core.Register(r, "cli", cliFault)
 	if r.Replays() {
 		return
+	}
+	{
+		i := 0
+		for _, ob := range []string{"directory", "dangling-link"} {
+			for which := 0; which < 3; which++ {
+				for _, populated := range []bool{false, true} {
+					i++
+					if r.Mine(i) {
+						c := c15CLI{Obstacle: ob, Which: which, Populated: populated}
+						r.Report("cli", c, cliFault(c))
+					}
+				}
+			}
+		}
 	}
 	type plan struct {
 		C         c15Case
@@ -293,4 +314,76 @@ func TestC15(t *testing.T) {
 		return nil
 	}
 	core.Rapid(r, "plan", r.Pick(160, 5000), gen, enumerate)
+}
+
+// ---- the command line on a native directory in which one artifact cannot be written for real (a directory stands where the
+// file belongs, or the path is a symbolic link into a directory that does not exist): the command must not exit 0; once the
+// obstacle is gone, the next default run repairs everything.
+
+type c15CLI struct {
+	Obstacle  string // "directory" | "dangling-link"
+	Which     int    // tier whose artifact is blocked: 0 root, 1 intermediate, 2 leaf
+	Populated bool   // the directory holds the artifacts of an earlier run and the root was edited since (so everything is re-issued)
+}
+
+func checkC15CLI(c c15CLI) *core.Failure {
+	w := World{Ents: []core.Entity{{File: "root.yaml", Subject: []core.RDN{{Key: "CN", Value: "C15 cli root"}}},
+		{File: "ca/mid.yaml", Subject: []core.RDN{{Key: "CN", Value: "C15 cli mid"}}, Issuer: "root"},
+		{File: "ca/leaves/leaf.yaml", Subject: []core.RDN{{Key: "CN", Value: "C15 cli leaf"}}, Issuer: "mid"}}}
+	d := w.Dir()
+	if c.Populated {
+		if res := core.Run(d, core.FlagDefault); !res.OK() {
+			return nil
+		}
+		w.Ents[0].Subject = append(w.Ents[0].Subject, core.RDN{Key: "O", Value: "edited"})
+		d.Put(w.Ents[0].File, w.Ents[0].Render())
+	}
+	root, err := os.MkdirTemp("", "gopki-c15cli-")
+	if err != nil {
+		return nil
+	}
+	defer os.RemoveAll(root)
+	d.Tick(10)
+	if err := d.Materialise(root); err != nil {
+		return nil
+	}
+	blocked := filepath.Join(root, filepath.FromSlash(core.PemPath(w.Ents[c.Which].File)))
+	os.Remove(blocked)
+	switch c.Obstacle {
+	case "directory":
+		if err := os.Mkdir(blocked, 0755); err != nil {
+			return nil
+		}
+	default:
+		if err := os.Symlink(filepath.Join(root, "no-such-directory", "x.pem"), blocked); err != nil {
+			return nil
+		}
+	}
+	out, code, err := runCLI(root, nil, "y\n")
+	if err != nil {
+		return nil
+	}
+	if strings.Contains(out, "panic:") || strings.Contains(out, "goroutine ") {
+		return core.Failf("C15/panic", "the command crashed: %s", out)
+	}
+	if code == 0 {
+		return core.Failf("C15/write-error-reported-as-success", "the artifact of tier %d cannot be written (%s in its place), yet the command exits 0\noutput: %s", c.Which, c.Obstacle, out)
+	}
+	// the obstacle goes away (nothing is put in its place); the next default run completes
+	os.Remove(blocked)
+	out2, code2, err := runCLI(root, nil, "y\n")
+	if err != nil {
+		return nil
+	}
+	if code2 != 0 {
+		return core.Failf("C15/recovery-failed", "after the obstacle was removed the command still fails (exit %d): %s", code2, out2)
+	}
+	if _, err := d.Absorb(root); err != nil {
+		return nil
+	}
+	if f := convergenceCheck("C15", &w, d, nil); f != nil {
+		f.Msg += fmt.Sprintf("\n(command line, %+v)", c)
+		return f
+	}
+	return nil
 }
